@@ -431,6 +431,12 @@ where
     }
 
     #[inline]
+    #[allow(deprecated)]
+    fn drop_span(&self, id: span::Id) {
+        self.inner.drop_span(id)
+    }
+
+    #[inline]
     fn try_close(&self, id: span::Id) -> bool {
         self.inner.try_close(id)
     }
